@@ -160,3 +160,376 @@ Proof.
   - destruct (E f); [apply IH|exact I].
 Qed.
 End CL.
+
+(* ---------- a refusal is sticky ---------- *)
+Lemma reached_cl s s' : cl s s' -> limit_reached s = true -> limit_reached s' = true.
+Proof.
+  unfold limit_reached. intros [A B]. rewrite A. destruct (limit s) as [l|]; [|discriminate].
+  intros H. apply Nat.leb_le in H. apply Nat.leb_le. lia.
+Qed.
+
+Definition res_reached (r : res) : Prop :=
+  match r with ROk s' | RErr s' => limit_reached s' = true | _ => True end.
+
+Theorem refusal_sticky cfg E fuel p s :
+  limit_reached s = true -> res_reached (exec cfg E fuel p s).
+Proof.
+  intros H. pose proof (exec_cl cfg E fuel p s) as C.
+  destruct (exec cfg E fuel p s); cbn in *; auto; eapply reached_cl; eauto.
+Qed.
+
+(* a refusal by inc_call happens exactly when the limit is reached *)
+Lemma inc_call_none s : inc_call s = None <-> limit_reached s = true.
+Proof.
+  unfold inc_call. destruct (limit_reached s); [tauto|]. destruct (limit s); split; discriminate.
+Qed.
+
+(* ---------- simulation by a laxer limit ---------- *)
+(* the other run has no limit, or a limit L' >= L and the same count *)
+Definition lax (L cA cB : nat) (l : option nat) : Prop :=
+  match l with None => True | Some L' => L <= L' /\ cB = cA end.
+
+Definition simpost (L : nat) (l : option nat) (rA rB : res) : Prop :=
+  match rA with
+  | ROk sA' => limit_reached sA' = true \/ exists c', rB = ROk (recl sA' c' l) /\ lax L (calls sA') c' l
+  | RErr sA' => limit_reached sA' = true \/ exists c', rB = RErr (recl sA' c' l) /\ lax L (calls sA') c' l
+  | _ => True
+  end.
+
+Lemma simpost_reached L l rA rB : res_reached rA -> simpost L l rA rB.
+Proof. destruct rA; cbn; auto. Qed.
+
+Lemma inc_call_sim L l sA c :
+  limit sA = Some L -> lax L (calls sA) c l ->
+  match inc_call sA with
+  | None => limit_reached sA = true
+  | Some sA1 => exists c1, inc_call (recl sA c l) = Some (recl sA1 c1 l) /\ lax L (calls sA1) c1 l /\ limit sA1 = Some L
+  end.
+Proof.
+  intros HL HX. unfold inc_call, limit_reached. rewrite HL. cbn [limit recl set_calls set_limit calls].
+  destruct (Nat.leb L (calls sA)) eqn:R; [reflexivity|]. apply Nat.leb_gt in R.
+  destruct l as [L'|]; cbn in HX.
+  - destruct HX as [H1 ->]. assert (Q : Nat.leb L' (calls sA) = false) by (apply Nat.leb_gt; lia). rewrite Q.
+    exists (S (calls sA)). split; [reflexivity|]. split; [cbn; auto|exact HL].
+  - exists c. split; [reflexivity|]. split; [exact I|exact HL].
+Qed.
+
+Lemma sim_bind L l rA rB kOk kErr :
+  simpost L l rA rB -> kcomm kOk -> kcomm kErr -> simpost L l (bind rA kOk kErr) (bind rB kOk kErr).
+Proof.
+  intros H HO HE.
+  assert (G : forall k sA', kcomm k ->
+     forall c', (limit_reached sA' = true \/ lax L (calls sA') c' l) -> simpost L l (k sA') (k (recl sA' c' l))).
+  { intros k sA' Hk c' D. pose proof (kcomm_keeps k Hk sA') as K. rewrite (Hk sA' c' l).
+    destruct (k sA') as [s2|s2| |]; cbn; auto.
+    - destruct (K s2 (or_introl eq_refl)) as [K1 K2]. destruct D as [D|D].
+      + left. unfold limit_reached in *. rewrite K1, K2. exact D.
+      + right. exists c'. split; [reflexivity|]. rewrite K1. exact D.
+    - destruct (K s2 (or_intror eq_refl)) as [K1 K2]. destruct D as [D|D].
+      + left. unfold limit_reached in *. rewrite K1, K2. exact D.
+      + right. exists c'. split; [reflexivity|]. rewrite K1. exact D. }
+  destruct rA as [sA'|sA'| |]; cbn in H |- *; auto.
+  - destruct H as [H|[c' [-> H]]].
+    + apply simpost_reached. pose proof (kcomm_cl kOk sA' HO) as C.
+      destruct (kOk sA'); cbn in *; auto; eapply reached_cl; eauto.
+    + cbn. apply G; auto.
+  - destruct H as [H|[c' [-> H]]].
+    + apply simpost_reached. pose proof (kcomm_cl kErr sA' HE) as C.
+      destruct (kErr sA'); cbn in *; auto; eapply reached_cl; eauto.
+    + cbn. apply G; auto.
+Qed.
+
+Section Sim.
+Variable cfg : config.
+Variable E : env.
+Variable L : nat.
+Variable l : option nat.
+
+(* after the first half of p ; q: continue with the induction hypothesis or by stickiness *)
+Lemma sim_then fuel (q : prog) rA rB
+  (IH : forall sA c, limit sA = Some L -> lax L (calls sA) c l ->
+        simpost L l (exec cfg E fuel q sA) (exec cfg E fuel q (recl sA c l))) s0 :
+  limit s0 = Some L -> res_cl s0 rA -> simpost L l rA rB ->
+  simpost L l (match rA with ROk s' => exec cfg E fuel q s' | RErr s' => RErr s' | RPanic k => RPanic k | ROutOfFuel => ROutOfFuel end)
+              (match rB with ROk s' => exec cfg E fuel q s' | RErr s' => RErr s' | RPanic k => RPanic k | ROutOfFuel => ROutOfFuel end).
+Proof.
+  intros HL C H. destruct rA as [sA'|sA'| |]; cbn in *; auto.
+  - destruct H as [H|[c' [-> H]]].
+    + apply simpost_reached. now apply refusal_sticky.
+    + apply IH; [destruct C; congruence|exact H].
+  - destruct H as [H|[c' [-> H]]]; [left; exact H|right; exists c'; auto].
+Qed.
+
+Lemma sim_else fuel (q : prog) rA rB
+  (IH : forall sA c, limit sA = Some L -> lax L (calls sA) c l ->
+        simpost L l (exec cfg E fuel q sA) (exec cfg E fuel q (recl sA c l))) s0 :
+  limit s0 = Some L -> res_cl s0 rA -> simpost L l rA rB ->
+  simpost L l (match rA with ROk s' => ROk s' | RErr s' => exec cfg E fuel q s' | RPanic k => RPanic k | ROutOfFuel => ROutOfFuel end)
+              (match rB with ROk s' => ROk s' | RErr s' => exec cfg E fuel q s' | RPanic k => RPanic k | ROutOfFuel => ROutOfFuel end).
+Proof.
+  intros HL C H. destruct rA as [sA'|sA'| |]; cbn in *; auto.
+  - destruct H as [H|[c' [-> H]]]; [left; exact H|right; exists c'; auto].
+  - destruct H as [H|[c' [-> H]]].
+    + apply simpost_reached. now apply refusal_sticky.
+    + apply IH; [destruct C; congruence|exact H].
+Qed.
+
+Theorem under_limit_simulation : forall fuel p sA c,
+  limit sA = Some L -> lax L (calls sA) c l ->
+  simpost L l (exec cfg E fuel p sA) (exec cfg E fuel p (recl sA c l)).
+Proof.
+  induction fuel as [|fuel IH]; intros p sA c HL HX; [exact I|].
+  destruct p; cbn [exec].
+  - (* PPrim *)
+    apply (sim_bind L l (ROk sA) (ROk (recl sA c l)) (exec_prim cfg o) (exec_prim cfg o));
+      [right; exists c; auto|apply exec_prim_comm|apply exec_prim_comm].
+  - (* PRule *)
+    pose proof (inc_call_sim L l sA c HL HX) as HI.
+    destruct (inc_call sA) as [s1|]; [|left; exact HI].
+    destruct HI as (c1 & -> & HX1 & HL1).
+    rewrite rule_enter_comm. destruct (rule_enter s1) as [fr s2] eqn:Er. cbn [fst snd].
+    assert (HL2 : limit s2 = Some L /\ calls s2 = calls s1).
+    { pose proof (rule_enter_comm s1 (calls s1) (limit s1)) as R. rewrite recl_id, Er in R. cbn in R.
+      injection R as R. rewrite R. cbn. auto. }
+    destruct HL2 as [HL2 HC2].
+    apply (sim_bind L l _ _ (rule_ok r fr) (rule_err r fr)); [|apply k_rule_ok|apply k_rule_err].
+    apply IH; [exact HL2|rewrite HC2; exact HX1].
+  - (* PSequence *)
+    pose proof (inc_call_sim L l sA c HL HX) as HI.
+    destruct (inc_call sA) as [s1|]; [|left; exact HI].
+    destruct HI as (c1 & -> & HX1 & HL1).
+    apply (sim_bind L l (exec cfg E fuel p (checkpoint s1)) (exec cfg E fuel p (recl (checkpoint s1) c1 l))
+             (fun s' => lift ROk (checkpoint_ok s'))
+             (fun s' => lift RErr (restore_st (set_queue (set_pos s' (pos s1)) (vtruncate (length (queue s1)) (queue s'))))));
+      [apply IH; assumption|apply k_checkpoint_ok|apply k_seq_err].
+  - (* PRepeat *)
+    pose proof (inc_call_sim L l sA c HL HX) as HI.
+    destruct (inc_call sA) as [s1|]; [|left; exact HI].
+    destruct HI as (c1 & -> & HX1 & HL1). apply IH; assumption.
+  - (* PRepeatLoop *)
+    pose proof (IH p sA c HL HX) as H1. pose proof (exec_cl cfg E fuel p sA) as C1.
+    destruct (exec cfg E fuel p sA) as [sA'|sA'| |]; cbn in H1, C1 |- *; auto.
+    + destruct H1 as [H1|[c' [-> H1]]].
+      * apply simpost_reached. now apply refusal_sticky.
+      * apply IH; [destruct C1; congruence|exact H1].
+    + destruct H1 as [H1|[c' [-> H1]]]; [left; exact H1|right; exists c'; auto].
+  - (* POptional *)
+    pose proof (inc_call_sim L l sA c HL HX) as HI.
+    destruct (inc_call sA) as [s1|]; [|left; exact HI].
+    destruct HI as (c1 & -> & HX1 & HL1).
+    apply (sim_bind L l _ _ ROk ROk); [apply IH; assumption|apply k_ok|apply k_ok].
+  - (* PLookahead *)
+    pose proof (inc_call_sim L l sA c HL HX) as HI.
+    destruct (inc_call sA) as [s1|]; [|left; exact HI].
+    destruct HI as (c1 & -> & HX1 & HL1).
+    apply (sim_bind L l
+             (exec cfg E fuel p (checkpoint (set_lookahead s1 (enter_lookahead positive (lookahead s1)))))
+             (exec cfg E fuel p (recl (checkpoint (set_lookahead s1 (enter_lookahead positive (lookahead s1)))) c1 l))
+             (fun s' => lift (fun x => if positive then ROk x else RErr x) (restore_st (set_lookahead (set_pos s' (pos s1)) (lookahead s1))))
+             (fun s' => lift (fun x => if positive then RErr x else ROk x) (restore_st (set_lookahead (set_pos s' (pos s1)) (lookahead s1)))));
+      [apply IH; assumption|apply k_look|].
+    destruct positive; [apply (k_look false)|apply (k_look true)].
+  - (* PAtomic *)
+    pose proof (inc_call_sim L l sA c HL HX) as HI.
+    destruct (inc_call sA) as [s1|]; [|left; exact HI].
+    destruct HI as (c1 & -> & HX1 & HL1).
+    change (atomicity (recl s1 c1 l)) with (atomicity s1).
+    destruct (negb (atom_eqb (atomicity s1) a)) eqn:T.
+    + apply (sim_bind L l (exec cfg E fuel p (set_atomicity s1 a)) (exec cfg E fuel p (recl (set_atomicity s1 a) c1 l))
+               (fun s' => ROk (if true then set_atomicity s' (atomicity s1) else s'))
+               (fun s' => RErr (if true then set_atomicity s' (atomicity s1) else s')));
+        [apply IH; assumption|apply (k_atomic_ok true)|apply (k_atomic_err true)].
+    + apply (sim_bind L l (exec cfg E fuel p s1) (exec cfg E fuel p (recl s1 c1 l))
+               (fun s' => ROk (if false then set_atomicity s' (atomicity s1) else s'))
+               (fun s' => RErr (if false then set_atomicity s' (atomicity s1) else s')));
+        [apply IH; assumption|apply (k_atomic_ok false (atomicity s1))|apply (k_atomic_err false (atomicity s1))].
+  - (* PStackPush *)
+    pose proof (inc_call_sim L l sA c HL HX) as HI.
+    destruct (inc_call sA) as [s1|]; [|left; exact HI].
+    destruct HI as (c1 & -> & HX1 & HL1).
+    apply (sim_bind L l _ _ (fun s' => if Nat.ltb (pos s') (pos s1) then RPanic PkInternal
+                   else ROk (set_stack s' (push (stack s') (firstn (pos s' - pos s1) (skipn (pos s1) (input s')))))) RErr);
+      [apply IH; assumption|apply k_push|apply k_err].
+  - (* PRestoreOnErr *)
+    apply (sim_bind L l (exec cfg E fuel p (checkpoint sA)) (exec cfg E fuel p (recl (checkpoint sA) c l))
+             (fun s' => lift ROk (checkpoint_ok s')) (fun s' => lift RErr (restore_st s')));
+      [apply IH; assumption|apply k_checkpoint_ok|apply k_restore_err].
+  - (* PAndThen *)
+    apply (sim_then fuel p2 _ _ (IH p2) sA HL (exec_cl cfg E fuel p1 sA)). apply IH; assumption.
+  - (* POrElse *)
+    apply (sim_else fuel p2 _ _ (IH p2) sA HL (exec_cl cfg E fuel p1 sA)). apply IH; assumption.
+  - (* PIfNonAtomic *)
+    change (atomicity (recl sA c l)) with (atomicity sA).
+    destruct (atom_eqb (atomicity sA) NonAtomic); apply IH; assumption.
+  - (* PCall *) destruct (E f); [apply IH; assumption|exact I].
+Qed.
+End Sim.
+
+(* ---------- the public entry point ---------- *)
+(* a parse "completes": state() returned Ok(pairs) or the ordinary ParsingError *)
+Definition completes (o : outcome) : Prop :=
+  match o with OPairs _ | OParsingError _ _ _ => True | _ => False end.
+Definition completesb (o : outcome) : bool :=
+  match o with OPairs _ | OParsingError _ _ _ => true | _ => false end.
+Lemma completesb_spec o : completesb o = true <-> completes o.
+Proof. destruct o; cbn; split; auto; discriminate. Qed.
+
+(* the limited run absorbed a refusal: the closure returned Ok although the limit was hit *)
+Definition absorbed (cfg : config) (E : env) (fuel : nat) (p : prog) (inp : list byte) (L : nat) (detail : bool) : bool :=
+  match run_state cfg E fuel p inp (Some L) detail with ROk s => limit_reached s | _ => false end.
+
+Lemma outcome_oof cfg r : outcome_of cfg r = OOutOfFuel <-> r = ROutOfFuel.
+Proof.
+  destruct r as [s|s| |]; cbn; split; try discriminate; auto.
+  - destruct (fixedlim cfg && limit_reached s); discriminate.
+  - destruct (limit_reached s); discriminate.
+Qed.
+
+Lemma outcome_recl_unreached cfg r c l :
+  match r with
+  | ROk s | RErr s => limit_reached s = false /\ limit_reached (recl s c l) = false
+  | _ => True
+  end -> outcome_of cfg (rmap (fun x => recl x c l) r) = outcome_of cfg r.
+Proof.
+  destruct r as [s|s| |]; cbn [rmap outcome_of]; auto.
+  - intros [-> ->]. rewrite !andb_false_r. reflexivity.
+  - intros [-> ->]. reflexivity.
+Qed.
+
+Lemma lax_unreached L s c l :
+  limit s = Some L -> lax L (calls s) c l -> limit_reached s = false -> limit_reached (recl s c l) = false.
+Proof.
+  unfold limit_reached. intros -> HX R. cbn. destruct l as [L'|]; [|reflexivity].
+  destruct HX as [H ->]. apply Nat.leb_gt in R. apply Nat.leb_gt. lia.
+Qed.
+
+Section Top.
+Variable cfg : config.
+Variable E : env.
+
+(* same fuel: the core of both clauses *)
+Lemma parse_sim fuel p inp L l detail :
+  lax L 0 0 l ->
+  let a := parse_with cfg E fuel p inp (Some L) detail in
+  let b := parse_with cfg E fuel p inp l detail in
+  (completes a /\ absorbed cfg E fuel p inp L detail = false -> b = a) /\
+  (a = b \/ (exists ap, a = OCallLimit ap) \/ a = OPanic \/ a = OOutOfFuel
+   \/ (fixedlim cfg = false /\ absorbed cfg E fuel p inp L detail = true)).
+Proof.
+  intros HX a b. subst a b. unfold parse_with, absorbed, run_state.
+  pose proof (under_limit_simulation cfg E L l fuel p (init inp (Some L) detail) 0 eq_refl HX) as S.
+  pose proof (exec_cl cfg E fuel p (init inp (Some L) detail)) as C.
+  change (recl (init inp (Some L) detail) 0 l) with (init inp l detail) in S.
+  destruct (exec cfg E fuel p (init inp (Some L) detail)) as [sA|sA|k|] eqn:EA; cbn [simpost res_cl] in S, C.
+  - destruct C as [CL _]. cbn in CL.
+    destruct (limit_reached sA) eqn:R.
+    + split; [intros [_ H]; discriminate|].
+      cbn [outcome_of]. rewrite R. destruct (fixedlim cfg); cbn [andb]; eauto 7.
+    + destruct S as [S|[c' [-> S]]]; [congruence|].
+      pose proof (lax_unreached L sA c' l CL S R) as R'.
+      assert (Q : outcome_of cfg (ROk (recl sA c' l)) = outcome_of cfg (ROk sA)).
+      { apply (outcome_recl_unreached cfg (ROk sA) c' l). auto. }
+      rewrite Q. split; auto.
+  - destruct C as [CL _]. cbn in CL.
+    destruct (limit_reached sA) eqn:R.
+    + split; [cbn [outcome_of]; rewrite R; intros [[] _]|].
+      cbn [outcome_of]. rewrite R. eauto 7.
+    + destruct S as [S|[c' [-> S]]]; [congruence|].
+      pose proof (lax_unreached L sA c' l CL S R) as R'.
+      assert (Q : outcome_of cfg (RErr (recl sA c' l)) = outcome_of cfg (RErr sA)).
+      { apply (outcome_recl_unreached cfg (RErr sA) c' l). auto. }
+      rewrite Q. split; auto.
+  - split; [intros [[] _]|]. cbn. auto.
+  - split; [intros [[] _]|]. cbn. auto 6.
+Qed.
+End Top.
+
+Section Top2.
+Variable cfg : config.
+Variable E : env.
+
+Lemma parse_with_mono f f' p inp lim detail :
+  f <= f' -> parse_with cfg E f p inp lim detail <> OOutOfFuel ->
+  parse_with cfg E f' p inp lim detail = parse_with cfg E f p inp lim detail.
+Proof.
+  unfold parse_with, run_state. intros Hle H. rewrite (exec_mono cfg E f f'); auto.
+  intros C. apply H. rewrite C. reflexivity.
+Qed.
+
+Lemma parse_with_fuel_irrelevant f1 f2 p inp lim detail :
+  parse_with cfg E f1 p inp lim detail <> OOutOfFuel -> parse_with cfg E f2 p inp lim detail <> OOutOfFuel ->
+  parse_with cfg E f1 p inp lim detail = parse_with cfg E f2 p inp lim detail.
+Proof.
+  intros H1 H2. destruct (Nat.le_ge_cases f1 f2) as [Hle|Hle].
+  - symmetry. now apply parse_with_mono.
+  - now apply parse_with_mono.
+Qed.
+
+Lemma absorbed_mono f f' p inp L detail :
+  f <= f' -> parse_with cfg E f p inp (Some L) detail <> OOutOfFuel ->
+  absorbed cfg E f' p inp L detail = absorbed cfg E f p inp L detail.
+Proof.
+  unfold parse_with, absorbed, run_state. intros Hle H. rewrite (exec_mono cfg E f f'); auto.
+  intros C. apply H. rewrite C. reflexivity.
+Qed.
+
+(* Clause 1, for the code as it is and as repaired: the only way a limit changes a result
+   without the error is an absorbed refusal reaching the Ok arm of an unrepaired state(). *)
+Theorem limit_result_general p inp detail L f1 f2 :
+  let a := parse_with cfg E f1 p inp (Some L) detail in
+  let b := parse_with cfg E f2 p inp None detail in
+  a <> OOutOfFuel -> b <> OOutOfFuel ->
+  a = b \/ (exists ap, a = OCallLimit ap) \/ a = OPanic
+  \/ (fixedlim cfg = false /\ absorbed cfg E f1 p inp L detail = true).
+Proof.
+  intros a b Ha Hb. subst a b.
+  set (f := Nat.max f1 f2).
+  assert (Ea : parse_with cfg E f p inp (Some L) detail = parse_with cfg E f1 p inp (Some L) detail)
+    by (apply parse_with_mono; [lia|exact Ha]).
+  assert (Eb : parse_with cfg E f p inp None detail = parse_with cfg E f2 p inp None detail)
+    by (apply parse_with_mono; [lia|exact Hb]).
+  assert (Ab : absorbed cfg E f p inp L detail = absorbed cfg E f1 p inp L detail)
+    by (apply absorbed_mono; [lia|exact Ha]).
+  destruct (parse_sim cfg E f p inp L None detail I) as [_ D].
+  rewrite Ea, Eb, Ab in D.
+  destruct D as [D|[D|[D|[D|D]]]]; auto. contradiction.
+Qed.
+
+(* Clause 2: completion under L is completion under every laxer limit (and under no limit). *)
+Theorem completion_stable_general p inp detail L l f1 f2 :
+  lax L 0 0 l ->
+  let a := parse_with cfg E f1 p inp (Some L) detail in
+  let b := parse_with cfg E f2 p inp l detail in
+  completes a -> absorbed cfg E f1 p inp L detail = false ->
+  (f1 <= f2 \/ b <> OOutOfFuel) -> b = a.
+Proof.
+  intros HX a b Hc Hab Hf. subst a b.
+  destruct (parse_sim cfg E f1 p inp L l detail HX) as [S _].
+  specialize (S (conj Hc Hab)).
+  assert (N : parse_with cfg E f1 p inp l detail <> OOutOfFuel).
+  { rewrite S. intros C. rewrite C in Hc. exact Hc. }
+  rewrite <- S. destruct Hf as [Hf|Hf].
+  - now apply parse_with_mono.
+  - now apply parse_with_fuel_irrelevant.
+Qed.
+
+Lemma completes_not_absorbed f p inp L detail :
+  fixedlim cfg = true -> completes (parse_with cfg E f p inp (Some L) detail) -> absorbed cfg E f p inp L detail = false.
+Proof.
+  unfold parse_with, absorbed. intros F. destruct (run_state cfg E f p inp (Some L) detail) as [s|s| |]; auto.
+  cbn. rewrite F. destruct (limit_reached s); cbn; [intros []|auto].
+Qed.
+End Top2.
+
+(* a panic of a parse is never an internal one (Vec index, splice, underflow, unreachable!):
+   only stack_pop/stack_peek on an empty stack, an undefined closure, or a bad slice position *)
+Require Import PV.Stack.Proofs PV.Comb.Frame.
+Lemma parse_no_internal_panic cfg E f p inp lim detail k :
+  run_state cfg E f p inp lim detail = RPanic k -> k <> PkInternal.
+Proof.
+  unfold run_state. intros H.
+  pose proof (exec_post cfg E f p (init inp lim detail) (@sempty (list byte))) as P.
+  rewrite H in P. apply P.
+  - unfold wf. cbn. lia.
+  - apply inv_empty.
+Qed.
